@@ -98,6 +98,7 @@ def evaluate(expr: ast.AST, env: Dict[str, int], funcs: Optional[Dict[str, ast.F
             fn = funcs[fname]
             body = [st for st in fn.body if not (isinstance(st, ast.Expr) and isinstance(st.value, ast.Constant))]
             params = [a.arg for a in fn.args.args]
+            body = [st for st in body if not isinstance(st, ast.Assert)]  # assertions state facts, they compute nothing
             if len(body) == 1 and isinstance(body[0], ast.Return) and body[0].value is not None and len(params) == len(args):
                 return evaluate(body[0].value, dict(zip(params, args)), funcs, depth + 1)
         raise Unsupported(f"call {fname or ast.dump(expr.func)[:40]}")
